@@ -19,7 +19,7 @@ from vlib import refsim as R, refops as O, h_c07 as H
 PROPERTY = "C12"
 RULE = ("(a) exhaustive sweeps over n_orbs = 1..4 (5 thorough) x ordering x encoding {jw,bk,jkmn} and, for scbk, every admissible "
         "(n_electrons, spin): all 4^n determinants (N, Sz eigenvalues) and all 4^n spin eigenfunctions of the reference S^2 matrix; "
-        "(b) Hypothesis-generated molecules (H2..H4, HeH, He2, LiH, H2O/BeH2 fragments; RHF/ROHF/UHF; frozen orbitals; <= 8 qubits): commutators "
+        "(b) Hypothesis-generated molecules (H2, HeH, H3, H4 chain/ring/3-D, He2, LiH, H2O/BeH2 fragments; RHF/ROHF/UHF; frozen orbitals; <= 8 qubits): commutators "
         "with the molecular Hamiltonian at fermion level and for 4 encodings x 2 orderings; (c) generated penalty cases (operator, attainable "
         "and unattainable targets, weights incl. 0/negative in combined_penalty, both orderings, every encoding); (d) generated (ansatz "
         "configuration, theta) for UCCSD closed/ROHF/UHF, UpCCGSD k=1..3, UCCGD, UCC1/UCC3, pUCCD, ADAPT with the UCCGSD fermionic pool under "
@@ -298,7 +298,7 @@ def encoded_scbk(ctx):
 
 # ------------------------------------------------------------------------------------------------ (b) commutation with molecular Hamiltonians
 
-@part("commute", quick=28, thorough=900)
+@part("commute", quick=28, thorough=3000)
 def commute(ctx):
     from vlib import h_mol
 
@@ -340,7 +340,9 @@ def commute(ctx):
                                    f"frozen={case['frozen']} uhf={case['uhf']}", sig=f"commute:{enc}:{name}")
         return n >= 2, labels
 
-    ctx.search("commute", h_mol.molecules(max_qubits=8, max_kept=5, bases=("sto-3g", "3-21g"), invalid=False), body)
+    kw = dict(max_qubits=8, max_kept=5, bases=("sto-3g", "3-21g"), invalid=False)
+    ctx.search("commute_restricted", h_mol.molecules(refs=("rhf", "rohf"), **kw), body, frac=0.65)     # N, Sz and S^2
+    ctx.search("commute_uhf", h_mol.molecules(refs=("uhf",), **kw), body, frac=0.35)                   # N and Sz only
 
 
 # ------------------------------------------------------------------------------------------------ (c) penalties
@@ -363,6 +365,16 @@ def penalty_cases(draw, nmax):
             return draw(st.one_of(st.integers(-n, n).map(lambda k: k / 2), st.sampled_from([0.25, n / 2 + 1])))
         return draw(st.one_of(st.integers(0, n).map(lambda k: (k / 2) * (k / 2 + 1)), st.sampled_from([1.0, 0.5, -1.0])))
 
+    # half of the cases take their targets from one actual (n_alpha, n_beta, S = |Sz|) sector, so that they are jointly attainable
+    consistent = None
+    if draw(st.booleans()):
+        na, nb = draw(st.integers(0, n)), draw(st.integers(0, n))
+        consistent = {"N": na + nb, "Sz": (na - nb) / 2, "S2": (abs(na - nb) / 2) * (abs(na - nb) / 2 + 1)}
+    free_target = target
+
+    def target(kind):                                    # noqa: F811
+        return consistent[kind] if consistent is not None else free_target(kind)
+
     kind = draw(st.sampled_from(["N", "Sz", "S2", "combined", "combined"]))
     case = {"n": n, "kind": kind, "op_utd": draw(st.booleans()), "enc": draw(st.sampled_from(["jw", "bk", "jkmn", "scbk"])),
             "map_utd": draw(st.booleans())}
@@ -384,7 +396,7 @@ def penalty_cases(draw, nmax):
     return case
 
 
-@part("penalties", quick=160, thorough=5000)
+@part("penalties", quick=160, thorough=15000)
 def penalties(ctx):
     from tangelo.toolboxes.ansatz_generator.penalty_terms import combined_penalty
     nmax = 3 if ctx.tier == "quick" else 4
@@ -488,7 +500,7 @@ def ansatz_cases(draw, cfgs):
     cfg = draw(st.sampled_from(cfgs))
     case = {"cfg": cfg, "th": draw(H.recipes())}
     if cfg["a"] == "ADAPT":
-        case["ops"] = draw(st.lists(st.integers(0, 199), min_size=1, max_size=4))
+        case["ops"] = draw(st.lists(st.integers(0, 199), min_size=2, max_size=6))
     return case
 
 
@@ -538,7 +550,7 @@ def run_ansatz_case(case):
     return nz >= 2, labels
 
 
-@part("ansatz", quick=200, thorough=6000)
+@part("ansatz", quick=200, thorough=20000)
 def ansatz(ctx):
     cfgs = ansatz_configs(ctx.tier)
     fams = [("UCCSD", 0.3), ("UpCCGSD", 0.22), ("UCCGD", 0.12), ("ADAPT", 0.2), ("RUCC", 0.08), ("pUCCD", 0.08)]
